@@ -107,6 +107,11 @@ def alloc_worker(args):
                 m = re.search(r"# fatal: (.*)", ro.log)
                 if m:
                     feat("msg:" + m.group(1).strip()[:60])
+            elif last.startswith("F ") and "scanner input buffer overflow" in (
+                    ro.log + ro.res.err.decode("latin1")):
+                # yy_get_next_buffer: the realloc that grows the buffer returned NULL and the
+                # very next statement reports it (with this message) through the hook
+                feat("fatal_buffer_grow")
             elif last.startswith("F init"):
                 en = int(last.split()[2]) if len(last.split()) > 2 else 0
                 if en != errno.ENOMEM:
